@@ -239,6 +239,9 @@ class ColumnCategorizer(Categorizer):
         return self._creader.sort_key(segment_docnum)
 
     def key_to_name(self, key):
+        # Documents without a value have the column's default value as key
+        if key == self._column_type.default_value(self._reverse):
+            return None
         return self._fieldobj.from_column_value(key)
 
 
